@@ -270,11 +270,47 @@ pub fn run_edge(base_cfg: &Value, seed: u64, hist: &[Value], exp: &Value) -> Out
     w.start();
     let mut last = json!({});
     let mut pre = Value::Null;
+    // the host's timers, as far as this history obeys them: armed by returned actions, disarmed by firing
+    let nports = cfg.ports.len();
+    let mut armed: Vec<std::collections::BTreeSet<String>> = vec![["rcpt".to_string()].into_iter().collect(); nports];
+    let mut obeys = true;
+    let mut ever_faulty = vec![false; nports];
     for (i, ev) in events.iter().enumerate() {
         if i + 1 == events.len() {
             pre = w.project(&json!({}));
         }
+        if ev["e"] == "t" {
+            let p = ev["p"].as_u64().unwrap_or(1) as usize - 1;
+            let k = ev["k"].as_str().unwrap_or("").to_string();
+            if !armed[p].remove(&k) {
+                obeys = false;
+            }
+        }
         last = w.step(ev);
+        for p in 0..nports {
+            if w.port_state_letter(p) == "F" {
+                ever_faulty[p] = true;
+            }
+        }
+        let mut arm = |p: usize, acts: &Value| {
+            if let Some(a) = acts.as_array() {
+                for x in a {
+                    if x["a"] == "T" {
+                        armed[p].insert(x["k"].as_str().unwrap_or("").to_string());
+                    }
+                }
+            }
+        };
+        if let Some(pend) = last.get("pend").and_then(|x| x.as_array()) {
+            for (q, acts) in pend.iter().enumerate() {
+                arm(q, acts);
+            }
+        } else if let Some(out) = last.get("out") {
+            let p = ev.get("p").and_then(|x| x.as_u64()).unwrap_or(1) as usize - 1;
+            if p < nports {
+                arm(p, out);
+            }
+        }
     }
     let act = w.project(&last);
     let mut mismatch = None;
@@ -283,10 +319,35 @@ pub fn run_edge(base_cfg: &Value, seed: u64, hist: &[Value], exp: &Value) -> Out
     } else {
         mismatch = mismatch.or_else(|| subset_match(&w.vals, exp, &act, ""));
     }
-    let preds = match events.last() {
+    let mut preds = match events.last() {
         Some(_) => predicates(&cfg, events, &pre, &act, cfg.so && !events.iter().any(|e| e["e"] == "so")),
         None => vec![],
     };
+    // C12 NoOrphanWait on the real run (only meaningful for histories in which timers fired only while armed)
+    if obeys && act.get("panic").is_none() {
+        for p in 0..nports {
+            let st = act["pst"][p].as_str().unwrap_or("?");
+            let mut needs: Vec<&str> = match st {
+                "M" => vec!["ann", "sync"],
+                "L" => vec!["rcpt"],
+                "S" if !cfg.ports[p].p2p => vec!["dreq"],
+                _ => vec![],
+            };
+            let pdst = act["snap"][p]["pd"]["st"].as_str().unwrap_or("E");
+            if cfg.ports[p].p2p && pdst != "E" {
+                needs.push("dreq");
+            }
+            for k in needs {
+                if !armed[p].contains(k) {
+                    if cfg.ports[p].p2p && st == "L" && k == "rcpt" && ever_faulty[p] {
+                        preds.push(("C12/orphan-recovered".into(), format!("port {} recovered from the faulty state and is listening without an announce receipt timer", p + 1)));
+                    } else {
+                        preds.push(("C12/orphan".into(), format!("port {} is in state {} but its {} timer was never (re-)armed", p + 1, st, k)));
+                    }
+                }
+            }
+        }
+    }
     Outcome {
         act,
         pre,
@@ -363,6 +424,9 @@ fn main() {
         };
         let hist = edge["hist"].as_array().cloned().unwrap_or_default();
         let exp = &edge["exp"];
+        if hist.is_empty() {
+            continue; // a step of the environment only (e.g. a mode switch) before any call
+        }
         edges += 1;
         events += hist.len() as u64;
         maxlen = maxlen.max(hist.len());
